@@ -581,7 +581,7 @@ func (x *Exec) VerifyFunc(fn *ssa.Function, c *FuncContract) (err error) {
 		sv := namedSV(ty, "in_"+name)
 		x.wf(st, sv)
 		for i, l := range leavesOf(ty) {
-			if l.sort == RefS {
+			if isRefLeaf(l) {
 				st.assume(BvCmp("bvult", sv.l[i], preExisting))
 			}
 		}
